@@ -159,10 +159,10 @@ def world_random(ctx, prop, blocks, length, seed_off=0):
     return st
 
 
-def world_threads(ctx, prop, blocks, rounds, ops, seed_off=0, defer=None):
+def world_threads(ctx, prop, blocks, rounds, ops, seed_off=0, defer=None, maxthreads=8):
     out = ctx.fresh("wthr", "ndjson")
     st = run_bin(ctx, "world", ["threads", "--out", out, "--blocks", blocks, "--rounds", rounds, "--ops", ops,
-                                "--seed", ctx.seed * 1000 + 500 + seed_off, "--ntypes", 2, "--ndyns", 2, "--maxthreads", 8],
+                                "--seed", ctx.seed * 1000 + 500 + seed_off, "--ntypes", 2, "--ndyns", 2, "--maxthreads", maxthreads],
                  features=FEATURES)
     ctx.cov["impl_runs"].append({"kind": "impl->spec multi-thread call/return histories with canaries (linearizability)",
                                  "blocks": st["blocks"], "thread_calls": st["thread_calls"], "quiescent_probes": st["syncs"],
@@ -207,10 +207,13 @@ def world_family(ctx, prop):
     if prop == "C08":
         world_cell_mc(ctx, threads=3, maxops=3 if q else 4)
         if q:
-            world_threads(ctx, prop, blocks=8, rounds=5, ops=24, defer=small)
+            world_threads(ctx, prop, blocks=8, rounds=5, ops=24, defer=small, maxthreads=6)
         else:
-            for k in range(4):
-                world_threads(ctx, prop, blocks=25, rounds=8, ops=40, seed_off=k)
+            # the set of configurations kept by WorldTrace grows exponentially with the number of
+            # simultaneously pending calls: many blocks with <= 4 threads, fewer and shorter ones with 8
+            world_threads(ctx, prop, blocks=30, rounds=8, ops=40, seed_off=0, maxthreads=4)
+            world_threads(ctx, prop, blocks=30, rounds=8, ops=40, seed_off=1, maxthreads=4)
+            world_threads(ctx, prop, blocks=12, rounds=6, ops=16, seed_off=2, maxthreads=8)
     if small:
         merged = ctx.fresh("wsmall", "ndjson")
         with open(merged, "w") as f:
